@@ -86,7 +86,7 @@ class C10(CheckBase):
         else:
             cmd = [rng.choice(['extract-files', 'extract-unused']), 'out']
             globals_ = ['--drive', str(drv)]
-        fault = rng.weighted([(3, 'none'), (1, 'rchunk'), (4, 'trunc'), (4, 'flip'), (1, 'notgzip'), (1, 'rfail'),
+        fault = rng.weighted([(7, 'none'), (2, 'rchunk'), (4, 'trunc'), (4, 'flip'), (1, 'notgzip'), (1, 'rfail'),
                               (1, 'tmp_createfail'), (2, 'tmp_wfail'), (1, 'tmp_rfail')]
                              + ([(2, 'enum_trunc'), (2, 'enum_flip')] if small else []))
         case = {'image': image, 'gz': self.gen_gz_params(rng), 'cmd': cmd, 'globals': globals_, 'fault': fault,
@@ -166,6 +166,22 @@ class C10(CheckBase):
                     out.probe('member-ends-on-512-byte-boundary')
             self.judge_same(out, case, atom, ref, r, 'C10.a', '%s compressed (%s)%s' % (plain, self.gzdesc(case), ' with read chunking' if fault == 'rchunk' else ''),
                             {'container': cont, 'fault': fault, 'members': 'multi' if case['gz'].get('splits') else 'single'})
+            if fault == 'none' and not image.get('full') and not image.get('cut_sectors'):
+                # the same pair of files under commands that reach the far end of every surface: the last sector of
+                # the last track, and every file of a drive
+                drives = [(d, i) for d, i in dfswork.image_drives(image) if i is not None]
+                for j, (d, si) in enumerate(drives[:2]):
+                    sj = image['surfaces'][si]
+                    extra = [(['dump-sector', str(d), str(sj['tracks'] - 1), str(sj['spt'] - 1)], []),
+                             (['extract-files', 'out'], ['--drive', str(d)])][(case['frac'] + j) % 2]
+                    c2 = dict(case, cmd=extra[0], globals=extra[1])
+                    ref2 = self.launch(ctx, out, c2, {plain: X}, plain, ref=True)
+                    if ref2.code is None:
+                        continue
+                    r2 = self.launch(ctx, out, c2, {gzname: G}, gzname, steps=260000 + 3 * len(G))
+                    out.sig(cont, extra[0][0], 'none+far-end', 'valid', r2.exit_class(), r2['log_hash'])
+                    self.judge_same(out, c2, dict(c2), ref2, r2, 'C10.a', '%s compressed (%s), far-end command' % (plain, self.gzdesc(case)),
+                                    {'container': cont, 'fault': fault, 'members': 'multi' if case['gz'].get('splits') else 'single'})
             return out
         if fault in ('trunc', 'flip', 'enum_trunc', 'enum_flip', 'notgzip'):
             if fault == 'notgzip':
